@@ -664,7 +664,9 @@ arRdItemArch0(Archive ar)
 	/* Move to the start of the data for this record */
 	if (cc % align != 0) cc += align - (cc % align);
 	arPosition(ar) = ar->__next + cc;
-	arSeek(ar, arPosition(ar));
+	if (!arSeek(ar, arPosition(ar)) && size > 0)
+		/* A header that promises data at the very end of the file. */
+		comsgError(NULL, ALDOR_E_ArTruncated, arToString(ar));
 
 
 	/* Find the position of the next header. */
